@@ -9,6 +9,15 @@ CTE_NOTE = ('Trusted: CPython, the ChoiceSource seam (every random decision of /
             'departures from every base schedule than the completed deviation bound.')
 
 CHECKS = {
+ 'C06': dict(engine='SSE', category='exploration', design_ref='5 C06',
+   text='Type.is_subtype / is_assignable is compared with an independent declarative relation (with capture) on every '
+        'ordered pair of well-formed types up to nesting depth 2 over every well-formed class table of a skeleton grammar '
+        '(three families: 1-parameter inheritance with variance/bounds, 2-parameter classes incl. dependent bounds, nested '
+        'constructors), for each builtin factory: soundness everywhere, exactness on the universe the property names, '
+        'reflexivity, transitivity on all shallow triples, bottom, assignability. Only minimal unsound pairs are reported.',
+   note='Trusted: R-SUB (mc/ref/rsub.py, 200 lines) in its literal and liberal readings; exactness judged only where both '
+        'agree. Tables with >2 generic classes in a chain, >2 parameters, depth >2 are not covered.',
+   technique='small-scope exhaustive enumeration of class tables x type pairs against a reference relation'),
  'C11': dict(engine='CTE+HBFS', category='model_checking', design_ref='5 C11',
    text='For every pipeline execution within the deviation bound, an explicit-state BFS over translation histories on '
         'long-lived translator objects (3 programs x 4 languages, depth 3, state merging on translator attributes; '
@@ -71,6 +80,8 @@ ENGINES = [
   'kind_free_text': 'stateless deviation-bounded explorer of the choice tree of the real pipeline (ChoiceSource replaces src.utils.random.r)'},
  {'name': 'exhaustive-graphs', 'path': 'mc/props/c19.py', 'serves_properties': ['C19'],
   'kind_free_text': 'enumeration of all digraphs up to 4 (5) vertices'},
+ {'name': 'SSE', 'path': 'mc/universe.py', 'serves_properties': ['C06'],
+  'kind_free_text': 'small-scope enumeration of class tables (skeleton grammar) and types built through the real constructors'},
  {'name': 'OUT', 'path': 'mc/ref/output_grammar.py', 'serves_properties': ['C14'],
   'kind_free_text': 'generative grammar of javac/kotlinc/groovyc/scalac batch output, exhaustively enumerated'},
  {'name': 'DRV', 'path': 'mc/drv.py', 'serves_properties': ['C15'],
